@@ -226,6 +226,9 @@ def run_history(case):
                     res['problems'].append(('unjustified-registration', '%s: %d newAccount request(s) although an account URL was stored, the CA did not report it unknown and the binding did not change' % (tag, len(regs))))
                 if prev is None and not regs:
                     res['problems'].append(('no-registration', '%s: first use of the endpoint without newAccount' % tag))
+                if eab_changed and ok and not [r for r in regs if (r.get('extra') or {}).get('eab') is not None]:
+                    res['problems'].append(('binding-not-sent', '%s: the external account binding changed (%s -> %s) and the renewal went through without any newAccount request carrying the new binding' % (
+                        tag, prev.get('eab'), cfg_state['eab'])))
                 # 2. the renewal must go through
                 if not ok:
                     last_err = [x['kv'].get('status') for x in hooks if C.hook_event(x) == 'post-operation' and x.get('cert') == cert][-1:]
